@@ -8,6 +8,9 @@ No semantics here: only the calling convention of the public API.
 from __future__ import annotations
 
 import json
+import warnings
+
+warnings.filterwarnings("ignore")
 
 from . import model
 from .model import NOATOM, NOPAR, IdMap, mk_descr, descr_json
